@@ -300,7 +300,7 @@ class SourceWorld(BaseWorld):
         if kind == 'keyword':           # reserved-word misuse: an identifier becomes a reserved token
             data = rng.choice(['A', 'C', 'I', 'E', 'asset', 'let', 'info', 'category', 'extends'])
         return {'op': 'damaged_read', 'file': target, 'kind': kind, 'pos': pos, 'len': ln,
-                'data': data, 'how': rng.choice(['compiler', 'compiler', 'from_mal_spec'])}
+                'data': data, 'how': rng.choice(['compiler', 'compiler', 'from_mal_spec', 'reuse_retry'])}
 
     def apply(self, op):
         self.count('op:' + op['op'])
@@ -419,7 +419,16 @@ class SourceWorld(BaseWorld):
         real = self.comp.FileStream
         self.comp.FileStream = fake_file_stream
         try:
-            o = self._compile(os.path.join(d, self.files[0]), how=op.get('how', 'compiler'))
+            if op.get('how') == 'reuse_retry':
+                # one compiler object, the same damaged tree read twice: the answer of
+                # the second call is the one judged
+                c = self.comp.MalCompiler()
+                first = self._compile(os.path.join(d, self.files[0]), compiler=c)
+                o = self._compile(os.path.join(d, self.files[0]), compiler=c)
+                self.count('probe:compiler_instance_reused_after_error' if first.raised
+                           else 'probe:compiler_instance_reused')
+            else:
+                o = self._compile(os.path.join(d, self.files[0]), how=op.get('how', 'compiler'))
         finally:
             self.comp.FileStream = real
         if fired['n']:
